@@ -364,7 +364,11 @@ func itemKind(item string) string {
 }
 
 // runHist replays hist on a fresh ChattyStrategy and evaluates the oracle at quiescence after the last event.
-func runHist(t *testing.T, p params, hist []string, detail bool) (out runOut) {
+// backlog > 0: the last `backlog` updates handed over pile up in front of the strategy: the broadcaster stops reading
+// before the first of them is handed over, every one of them is offered on the update channel (senders queue up in
+// order), and only then does the broadcaster read again - the situation of a mirror that keeps producing updates while
+// the strategy is blocked broadcasting.
+func runHist(t *testing.T, p params, hist []string, detail bool, backlog int) (out runOut) {
 	w := getWorld(p.NV)
 	m := newModel(p)
 
@@ -374,6 +378,15 @@ func runHist(t *testing.T, p params, hist []string, detail bool) (out runOut) {
 	exited := false
 	var herr string
 
+	totalSends := 0
+	if backlog > 0 {
+		m0 := newModel(p)
+		for _, ev := range hist {
+			if u, err := m0.apply(ev); err == nil && u != nil {
+				totalSends++
+			}
+		}
+	}
 	synctest.Test(t, func(t *testing.T) {
 		ctx, cancel := context.WithCancel(context.Background())
 		var wg sync.WaitGroup
@@ -382,7 +395,10 @@ func runHist(t *testing.T, p params, hist []string, detail bool) (out runOut) {
 			pvCh: make(chan tmconsensus.PrevoteSparseProof),
 			pcCh: make(chan tmconsensus.PrecommitSparseProof),
 		}
-		rec.drain(ctx, &wg)
+		drainCtx, stopDrain := context.WithCancel(ctx)
+		var dwg sync.WaitGroup
+		rec.drain(drainCtx, &dwg)
+		holding := false
 
 		s := tmgossip.NewChattyStrategy(ctx, slog.New(slog.DiscardHandler), rec)
 		updates := make(chan tmelink.NetworkViewUpdate)
@@ -438,7 +454,26 @@ func runHist(t *testing.T, p params, hist []string, detail bool) (out runOut) {
 				}
 			}
 			real := w.update(u)
+			if backlog > 0 && !holding && out.Sends >= totalSends-backlog {
+				// The broadcaster stops reading (at a quiescent point: nothing is in flight).
+				holding = true
+				stopDrain()
+				dwg.Wait()
+			}
 			out.Sends++
+			if holding {
+				wg.Add(1)
+				go func() {
+					defer wg.Done()
+					select {
+					case updates <- real:
+					case <-done:
+					case <-ctx.Done():
+					}
+				}()
+				synctest.Wait() // the sender is parked (or its update was taken): the queue order is the hand-over order
+				continue
+			}
 			if !exited {
 				select {
 				case updates <- real:
@@ -446,6 +481,11 @@ func runHist(t *testing.T, p params, hist []string, detail bool) (out runOut) {
 					exited = true
 				}
 			}
+			synctest.Wait()
+		}
+		if holding {
+			// The broadcaster reads again.
+			rec.drain(ctx, &wg)
 			synctest.Wait()
 		}
 		if !exited {
@@ -458,6 +498,8 @@ func runHist(t *testing.T, p params, hist []string, detail bool) (out runOut) {
 		cancel()
 		<-done
 		wg.Wait()
+		stopDrain()
+		dwg.Wait()
 	})
 
 	if herr != "" {
@@ -667,7 +709,8 @@ func (o runOut) toResult() vx.Result {
 
 // execRun: one history, full detail (replay and samples).
 func execRun(t *testing.T, job vx.Job) vx.Result {
-	o := runHist(t, jobParams(job), job.Hist, true)
+	bl, _ := strconv.Atoi(job.Args["backlog"])
+	o := runHist(t, jobParams(job), job.Hist, true, bl)
 	res := o.toResult()
 	res.Obs, _ = json.Marshal(o)
 	if m, err := replayModel(jobParams(job), job.Hist); err == nil {
@@ -684,6 +727,8 @@ func execRun(t *testing.T, job vx.Job) vx.Result {
 //
 // Compact output: Next[0] holds one line per successor (event, key, flags n=non-trivial h=held, outcome),
 // Obs the full records of the successors with violations or harness errors, Counters the sums.
+const backlogMaxLen = 4
+
 func execExpand(t *testing.T, job vx.Job) vx.Result {
 	p := jobParams(job)
 	m, err := replayModel(p, job.Hist)
@@ -695,8 +740,8 @@ func execExpand(t *testing.T, job vx.Job) vx.Result {
 	var bad []childRec
 	var lines strings.Builder
 	h := append(append(make([]string, 0, len(job.Hist)+1), job.Hist...), "")
-	var sends, msgs, items, execs int64
-	parent := runHist(t, p, job.Hist, false)
+	var sends, msgs, items, execs, backlogExecs int64
+	parent := runHist(t, p, job.Hist, false, 0)
 	execs++
 	if parent.HarnessErr != "" {
 		return vx.Result{HarnessErr: parent.HarnessErr}
@@ -706,13 +751,23 @@ func execExpand(t *testing.T, job vx.Job) vx.Result {
 		var o runOut
 		flags := ""
 		if strings.HasSuffix(ev, "!") {
-			o = runHist(t, p, h, false)
+			o = runHist(t, p, h, false, 0)
 			execs++
 			sends += int64(o.Sends)
 			msgs += int64(o.Msgs[0] + o.Msgs[1] + o.Msgs[2])
 			items += int64(o.Required)
 			if len(o.Viol) > 0 || o.HarnessErr != "" {
 				bad = append(bad, childRec{E: ev, runOut: o})
+			}
+			// The same history with its last 2 and its last 3 updates piling up in front of a strategy whose
+			// broadcaster does not read (histories of up to backlogMaxLen events).
+			for bl := 2; bl <= 3 && bl <= o.Sends && len(h) <= backlogMaxLen; bl++ {
+				ob := runHist(t, p, h, false, bl)
+				execs++
+				backlogExecs++
+				if len(ob.Viol) > 0 || ob.HarnessErr != "" {
+					bad = append(bad, childRec{E: ev, B: bl, runOut: ob})
+				}
 			}
 		} else {
 			m2 := *m
@@ -735,6 +790,7 @@ func execExpand(t *testing.T, job vx.Job) vx.Result {
 	res.Count("broadcast_msgs", msgs)
 	res.Count("items_compared", items)
 	res.Count("executions_on_real_strategy", execs)
+	res.Count("executions_with_a_backlog_of_updates", backlogExecs)
 	if len(bad) > 0 {
 		res.Obs, _ = json.Marshal(bad)
 	}
